@@ -2,7 +2,7 @@ from common import Ctx, RULES
 from legs import run_classified_leg
 
 PID = "C12"
-COQ_FILES = ["Model/Base.v", "Gen/Dap.v", "Model/DapWire.v", "Proofs/DapWireProofs.v", "Properties/C12.v"]
+COQ_FILES = ["Model/Base.v", "Gen/Dap.v", "Model/DapWire.v", "Proofs/DapWireProofs.v", "Gen/DapDrain.v", "Ties/DapTie.v", "Properties/C12.v"]
 RULES[PID] = ("e2e leg: request sequences from a DAP grammar (initialize/launch/set*Breakpoints/configurationDone, then 14 seeded requests among "
               "continue/next/stepIn/stepOut/threads/stackTrace/scopes/variables/evaluate/readMemory/pause/setBreakpoints/unknown command, with missing, "
               "ill-typed and huge arguments, optional out-of-order prefix, requests after the end, disconnect) against a real DebugSession over an "
